@@ -87,6 +87,12 @@ var (
 
 type tagKey struct{}
 
+// a non-nil error whose ExitStatus() is 0 (e.g. a wrapper around a tool that printed errors but exited 0)
+type zeroStatusErr string
+
+func (e zeroStatusErr) Error() string   { return string(e) }
+func (e zeroStatusErr) ExitStatus() int { return 0 }
+
 var (
 	cancelMu sync.Mutex
 	cancels  = map[int][]context.CancelFunc{}
@@ -267,6 +273,12 @@ func body(kind, slot int, ctx context.Context, args []interface{}) error {
 			panic("harness: kind without error result cannot return an error")
 		}
 		return errors.New("failed " + tok + pctMark)
+	case "errwrap":
+		logEv(event{E: "be", K: n, R: "err", Code: 1, Toks: []string{tok}})
+		return fmt.Errorf("step failed: %w", mg.Fatal(nd.Result.Code, "wrapped "+tok+pctMark))
+	case "errzero":
+		logEv(event{E: "be", K: n, R: "err", Code: 0, Toks: []string{tok}})
+		return zeroStatusErr("tool reported " + tok + pctMark)
 	case "fatal":
 		logEv(event{E: "be", K: n, R: "err", Code: nd.Result.Code, Toks: []string{tok}})
 		return mg.Fatal(nd.Result.Code, "fatal "+tok+pctMark)
